@@ -632,11 +632,36 @@ impl<'a> P<'a> {
             Some(Tok::Word(w)) => {
                 let first = w.to_ascii_lowercase();
                 self.i += 1;
+                let mut name = first.clone();
                 if first == "double" && self.is_kw("precision") {
                     self.i += 1;
-                    return Ok("double precision".to_string());
+                    name = "double precision".to_string();
                 }
-                Ok(first)
+                // In SQL a type name absorbs what follows it directly: `x::bytea[0]` casts to the
+                // array type bytea[0] and `x::timestamp(3)` to timestamp(3) - neither indexes nor
+                // calls the cast value. Keep the text as part of the type so the trees differ.
+                while self.is_sym("[") || self.is_sym("(") {
+                    let (open, close) = if self.is_sym("[") { ("[", "]") } else { ("(", ")") };
+                    let mut depth = 0usize;
+                    let mut text = String::new();
+                    loop {
+                        let Some(t) = self.peek().cloned() else {
+                            return perr("unterminated-type-modifier", "type modifier is not closed".to_string());
+                        };
+                        self.i += 1;
+                        match &t {
+                            Tok::Sym(s) if *s == open => depth += 1,
+                            Tok::Sym(s) if *s == close => depth -= 1,
+                            _ => {}
+                        }
+                        text.push_str(&format!("{:?}", t));
+                        if depth == 0 {
+                            break;
+                        }
+                    }
+                    name = format!("{}{}", name, text);
+                }
+                Ok(name)
             }
             _ => perr("expected-type", format!("expected a type name after `::`, found {}", self.here())),
         }
